@@ -29,7 +29,7 @@ ASSUMPTIONS = [
     "float agreement is judged to 1e-9 relative + 1e-12 absolute; counts are exact",
 ]
 REQUIRED = {"all": ["single_residues", "residue_pairs", "random_sequences", "whitespace_presentations",
-                    "ppii_scale_switches"]}
+                    "ppii_scale_switches", "longer_than_1000"]}
 NRANDOM = {"quick": 4000, "thorough": 30000}
 
 
@@ -40,6 +40,8 @@ def cases(tier, seed):
         for b in M.AA:
             yield {"s": a + b, "kind": "pair"}
     rng = gen.sub_rng(seed, ID)
+    for i in range(6 if tier == "quick" else 40):
+        yield {"s": gen.rand_seq(rng, rng.choice(["idp", "uniform", "hydrophobic"]), lo=1001, hi=3000), "kind": "random", "o": rng.randrange(1 << 30)}
     for i in range(NRANDOM[tier]):
         s = gen.rand_seq(rng, hi=400 if i % 6 == 0 else 80)
         pres = s
@@ -118,6 +120,8 @@ def judge(case, rep, S):
     if pres != word:
         rep.cnt("whitespace_presentations")
     rep.distinct(tuple(sorted(Counter(word).items())))
+    if len(word) > 1000:
+        rep.cnt("longer_than_1000")
     ref = reference(word)
     seed = case.get("o", 7)
     obs = observe(S, pres, seed, rep)
